@@ -120,7 +120,7 @@ def is_special_text(s):
     return isinstance(s, str) and any(c in s for c in YAML_SPECIAL_CHARS) or (isinstance(s, str) and re.search(r"[\x00-\x08\x0b\x0c\x0e-\x1f\x7f-\x9f]", s) is not None)
 
 
-INT = st.one_of(st.integers(-5, 5), st.integers(-5, 5), st.integers(-(2**70), 2**70), st.sampled_from([2**31, 2**53 + 1, 2**63, -(2**63) - 1, 10**20]))
+INT = st.one_of(st.integers(-5, 5), st.integers(-5, 5), st.integers(-(2**70), 2**70), st.sampled_from([2**31, 2**53 + 1, 2**63, -(2**63) - 1, 10**20, 10**400, -(10**400)]))
 FLOAT = st.one_of(st.sampled_from([0.0, -0.0, 1.0, -1.0, 1e3, 1e-7, 1e16, 1e22, 1e23, 0.1, 1.5, -2.5, 5e-324, 1.7976931348623157e308, 123456789.123456789]),
                   st.floats(allow_nan=False, allow_infinity=False), st.integers(-3, 3))
 
